@@ -627,8 +627,12 @@ func TestSyncThroughAllActivations(t *testing.T) {
 	}
 }
 
-// TestPanicIsReported: an SPR entry with a single ExtID makes node.GradeS index
-// out of range (extids[1]); SyncTo and StepBlock must return that as an error.
+// TestPanicIsReported: an SPR entry with a single ExtID used to make
+// node.GradeS index out of range (extids[1]); /repo now skips such entries
+// ("fix: ignore SPR chain entries with fewer than two external ids"), so both
+// SyncTo and StepBlock must apply the block. (The panic -> error path of
+// SyncTo/StepBlock is unchanged; there is no known panicking input left to
+// exercise it with.)
 func TestPanicIsReported(t *testing.T) {
 	defer MainnetSchedule().Apply()
 	s := compressedSchedule()
@@ -652,20 +656,21 @@ func TestPanicIsReported(t *testing.T) {
 	if err != nil {
 		t.Fatal(err)
 	}
-	err = SyncTo(n, fc, 101, 30*time.Second)
-	if err == nil || !strings.Contains(err.Error(), "panic in DBlockSync at height 101") || !strings.Contains(err.Error(), "index out of range") {
+	if err := SyncTo(n, fc, 101, 30*time.Second); err != nil {
 		t.Fatalf("SyncTo: %v", err)
+	}
+	if n.Sync.Synced != 101 {
+		t.Fatalf("Synced = %d after SyncTo", n.Sync.Synced)
 	}
 
 	n2, err := NewNode(filepath.Join(dir, "step.db"), ServerURL(srv))
 	if err != nil {
 		t.Fatal(err)
 	}
-	err = StepBlock(n2, 101)
-	if err == nil || !strings.Contains(err.Error(), "panic in StepBlock at height 101") || !strings.Contains(err.Error(), "index out of range") {
+	if err := StepBlock(n2, 101); err != nil {
 		t.Fatalf("StepBlock: %v", err)
 	}
-	if n2.Sync.Synced != 100 {
-		t.Fatalf("Synced = %d after a panicking block", n2.Sync.Synced)
+	if n2.Sync.Synced != 101 {
+		t.Fatalf("Synced = %d after StepBlock", n2.Sync.Synced)
 	}
 }
